@@ -35,6 +35,9 @@ func init() {
 				for u := 0; u < 2; u++ {
 					mm.add(uidOf(u), memUser{upRate: 1 << 30, downRate: 1 << 30, upCredit: 1 << 40, downCredit: 1 << 40, expiry: 1 << 40, cap: 10})
 				}
+				// user 2: a record whose DownRate was never written (the admin API writes only the fields it is
+				// given): its owner is refused, and the bookkeeping goes on
+				mm.add(uidOf(2), memUser{upRate: 1 << 30, downRate: 0, upCredit: 1 << 40, downCredit: 1 << 40, expiry: 1 << 40, cap: 10})
 				panel := MakeUserPanel(newEvManager(mm))
 				type handed struct {
 					u    int
@@ -46,6 +49,9 @@ func init() {
 				recs := map[int]*ActiveUser{}
 				admit := func(u int, s uint32) {
 					user, err := panel.GetUser(uidOf(u))
+					if err != nil && u == 2 {
+						return // refused (non-positive rate): the dispatcher redirects such a connection
+					}
 					if err != nil {
 						vrt.Fail("harness", "GetUser: %v", err)
 					}
@@ -168,6 +174,8 @@ func init() {
 			jobs = append(jobs, vx.Job{Scenario: "panel.ops", Params: vx.P("ops", t[0], "pre", t[1]), Bound: b(2, 4), Weight: 8})
 		}
 		jobs = append(jobs, vx.Job{Scenario: "panel.ops", Params: vx.P("ops", "round,round,close0.1,admit0.2", "pre", "0.1", "delay", "1"), Bound: b(2, 3), Weight: 9})
+		// a refused owner of an incomplete record among the other operations
+		jobs = append(jobs, vx.Job{Scenario: "panel.ops", Params: vx.P("ops", "admit2.1,admit0.2,round,close0.1", "pre", "0.1", "delay", "1"), Bound: b(1, 2), Weight: 7})
 		for i := range jobs {
 			jobs[i].BudgetS = b(100, 900)
 		}
